@@ -198,9 +198,22 @@ func step(it It, r *rt.Rec) (ev Ev) {
 	return
 }
 
+func construct(f mk, r *rt.Rec) (it It, pn string) {
+	defer func() {
+		if p := recover(); p != nil {
+			pn = fmt.Sprint(p)
+		}
+	}()
+	return f(r, 0, 2), ""
+}
+
 func run(f mk, in In) (evs []Ev, newEffs, after int) {
 	r := rt.NewRec(in.Tape, in.Budget)
-	it := f(r, 0, 2)
+	it, pn := construct(f, r)
+	if pn != "" {
+		// the generator function call itself panicked: no statement may run before the first MoveNext
+		return []Ev{{Op: "new", Panic: "generator function call panicked: " + pn, Effs: r.Log}}, len(r.Log), 0
+	}
 	newEffs = len(r.Log)
 	for c := 0; c < in.Calls; c++ {
 		ev := step(it, r)
@@ -578,6 +591,9 @@ func judgeSrc(c *vf.Check, fam string, cases []srcCase, run *srcRun, flags strin
 		p := run.ProgOf[i]
 		exp := normEvents(sc.Ideal, keys...)
 		expFull := normEvents(sc.Ideal, srcKeys...)
+		if o.Status == "notrun" {
+			continue
+		}
 		if o.Status != "ok" {
 			// a hang or a fatal crash of the process while running this case
 			if run.Status[p] == "" {
